@@ -99,8 +99,8 @@ Problems(r) ==
    usage     |-> IF r.kind = "help" /\ "usage" \in DOMAIN r /\ "usage_token" \notin DOMAIN lvl /\ r.usage # UsageLineS(lvl, r.path, "")
                  THEN UsageLine(lvl, r.path) ELSE "",
    \* the generated documentation shows the same usage line for every command level (markdown and html carry it
-   \* literally; a line supplied by the program aside)
-   docusage  |-> IF r.kind \in {"markdown", "html"} /\ "usages" \in DOMAIN r
+   \* literally, a manpage as its SYNOPSIS; a line supplied by the program aside)
+   docusage  |-> IF r.kind \in {"markdown", "html", "manpage"} /\ "usages" \in DOMAIN r
                  THEN {UsageLineS(LevelAt(DefById(r.def), p), p, "") :
                          p \in {q \in AllPaths(DefById(r.def)) : "usage_token" \notin DOMAIN LevelAt(DefById(r.def), q)}} \ RangeOf(r.usages)
                  ELSE {},
